@@ -5,7 +5,7 @@ package functions
 // Contracts for the verifier in /verif (comment-only file; no declarations).
 
 //@ func partitionDemand(input, demand, outflow, extraction)
-//@   locals n, idx, i, dmd, inp, ext, out
+//@   locals n, idx, i@loop, dmd, inp, ext, out
 //@   kernel
 //@   states none
 //@   noalias
@@ -29,7 +29,7 @@ package functions
 //@   ensures [C16.input-identity] forall(t, 0, input.len, output.at(t) == input.at(t))
 
 //@ func sum(i1, i2, out)
-//@   locals n, idx, day, s
+//@   locals n, idx, day@loop, s
 //@   kernel
 //@   states none
 //@   noalias
@@ -41,7 +41,7 @@ package functions
 //@   loop 0 invariant forall(t, 0, day, out.at(t) == i1.at(t) + i2.at(t))
 
 //@ func gate(trigger, incoming, outgoing)
-//@   locals n, idx, day, t, i
+//@   locals n, idx, day@loop, t, i
 //@   kernel
 //@   states none
 //@   noalias
@@ -78,7 +78,7 @@ package functions
 //@   ensures [C19.days-in-month] r == dim(month, year)
 
 //@ func _dayOfYear(d, m, y) returns (r)
-//@   locals doy, mi
+//@   locals doy, mi@loop
 //@   canary [C19.canary-day-of-year] r == d
 //@   safety C19
 //@   requires validDate(y, m, d)
@@ -86,7 +86,7 @@ package functions
 //@   loop 0 invariant 1 <= mi && mi <= m && doy == dfc(y,mi,1) - dfc(y,1,1)
 
 //@ func dateGenerator(tick, startDate, startMonth, startYear, date, month, year, dayOfYear)
-//@   locals d, m, y, n, idx, i
+//@   locals d, m, y, n, idx, i@loop
 //@   kernel
 //@   states none
 //@   noalias
@@ -103,12 +103,12 @@ package functions
 //@   loop 0 step [C19.frame] forall(t, 0, i, date.at(t) == pre(date.at(t)) && month.at(t) == pre(month.at(t)) && year.at(t) == pre(year.at(t)) && dayOfYear.at(t) == pre(dayOfYear.at(t)))
 
 //@ func computeProportion
-//@   locals n, idx, i, n, d
+//@   locals n, idx, i@loop, n, d
 //@   structural only
 //@   kernel
 //@   states none
 //@ func baseflowFilter
-//@   locals n, idx, i
+//@   locals n, idx, i@loop
 //@   structural only
 //@   kernel
 //@   states none
